@@ -74,6 +74,21 @@ pub fn mutants(s: &Seed, level: Level) -> Vec<Mutant> {
             out.push(Mutant { what: "dup-inst-after-next".into(), bytes: model::words_to_bytes(&w) });
         }
     }
+    // two distant faults together: another header version word AND an unknown opcode / a zero word count at the target
+    for v in [0x0001_0700u32, 0x0002_0000, 0xFFFF_FFFF, 0].into_iter().filter(|_| s.id.ends_with(":min:1st") || s.id.ends_with(":full:3rd")) {
+        let mut w = s.words.clone();
+        w[1] = v;
+        out.push(Mutant { what: format!("version={:#x}", v), bytes: model::words_to_bytes(&w) });
+        w[t] = (first & 0xFFFF_0000) | 9;
+        out.push(Mutant { what: format!("version={:#x}&opcode=9", v), bytes: model::words_to_bytes(&w) });
+        w[t] = opcode;
+        out.push(Mutant { what: format!("version={:#x}&wc=0", v), bytes: model::words_to_bytes(&w) });
+        let mut w = s.words.clone();
+        w[1] = v;
+        w.insert(t + n, 0x0000_0777);
+        w[t] = (((n + 1) as u32) << 16) | opcode;
+        out.push(Mutant { what: format!("version={:#x}&surplus+wc", v), bytes: model::words_to_bytes(&w) });
+    }
     // a string that is not terminated inside its instruction: every word of the target that contains a zero byte is
     // replaced by text, so that the next NUL lies in a LATER instruction
     {
@@ -87,6 +102,20 @@ pub fn mutants(s: &Seed, level: Level) -> Vec<Mutant> {
         }
         if changed {
             out.push(Mutant { what: "unterminate".into(), bytes: model::words_to_bytes(&w) });
+        }
+    }
+    // the whole target instruction N times in a row (a counter or heuristic that only changes behaviour after many
+    // repetitions); only for targets of at most 8 words, so the binaries stay small
+    if n <= 8 && (s.id.contains(":min:") || s.id.contains(":full:")) {
+        for reps in [3usize, 33, 257] {
+            let mut w = s.words.clone();
+            let copy: Vec<u32> = s.words[t..t + n].to_vec();
+            let mut many = Vec::with_capacity(n * reps);
+            for _ in 0..reps - 1 {
+                many.extend(copy.iter().copied());
+            }
+            w.splice(t + n..t + n, many);
+            out.push(Mutant { what: format!("repeat-inst-x{}", reps), bytes: model::words_to_bytes(&w) });
         }
     }
     if level == Level::Scale {
@@ -114,7 +143,7 @@ pub fn mutants(s: &Seed, level: Level) -> Vec<Mutant> {
     }
     // word count of the target := every value 0..=true+2 and 0xFFFF
     let mut wcs: Vec<u32> = (0..=(n as u32 + 2)).collect();
-    wcs.push(0xFFFF);
+    wcs.extend([0xFFFF, 0xFFFE, 0x8000, 0x7FFF, 0x4000, 0x1000, 0x0100, 0x00FF]);
     for wc in wcs {
         if wc as usize == n {
             continue;
